@@ -621,22 +621,23 @@ namespace fixedmath
       if( fixed_unlikely(value.v < 0 || value.v >= (1ll<<48)) )
         return std::numeric_limits<fixed_t>::quiet_NaN();
 
-      value.v <<= 16;
+      // value scaled by 2^16 needs up to 64 bits, intermediate results need the top bit too
+      fixed_internal_unsigned scaled { static_cast<fixed_internal_unsigned>(value.v) << 16 };
       
-      fixed_internal pwr4 { detail::highest_pwr4_clz(value.v) };
+      fixed_internal_unsigned pwr4 { static_cast<fixed_internal_unsigned>(detail::highest_pwr4_clz(scaled)) };
       
-      fixed_internal result{};
+      fixed_internal_unsigned result{};
       while( pwr4 != 0 )
         {
-        if( value.v >= ( result + pwr4 ) )
+        if( scaled >= ( result + pwr4 ) )
           {
-          value.v -= result + pwr4;
+          scaled -= result + pwr4;
           result += pwr4 << 1;
           }
         result >>= 1;
         pwr4 >>= 2;
         }
-      return as_fixed(result);
+      return as_fixed(static_cast<fixed_internal>(result));
       }
       
     [[ nodiscard, gnu::const]]
